@@ -70,18 +70,39 @@ func propC17(e *Env) {
 		return
 	}
 	nw := 1 + e.Choose("gen", 4)
+	if !oneShot && e.Choose("gen", 10) == 0 {
+		nw = 0 // nobody ever connects: cancellation alone must end the stream
+		e.Probe("no_writer_at_all")
+	}
 	if oneShot && !dgram {
 		// one-shot stream sockets take exactly one connection
 		nw = 1
 	}
 	cancelEarly := e.Choose("gen", 3) == 0
+	bulk := dgram && e.Choose("gen", 8) == 0
+	if bulk {
+		cancelEarly = false
+		if nw > 2 {
+			nw = 2
+		}
+		e.Probe("datagram_bulk_over_128KiB")
+	}
 	var ws []*c17Writer
 	for i := 0; i < nw; i++ {
 		w := &c17Writer{id: i}
 		nl := e.Choose("gen", 7)
+		pad := 0
+		if bulk {
+			// enough datagram traffic to wrap the 128 KiB read buffer more than once
+			nl = 120 + e.Choose("gen", 60)
+			pad = 1200
+		}
 		var sb strings.Builder
 		for k := 0; k < nl; k++ {
 			l := fmt.Sprintf("w%d-%d", i, k)
+			if pad > 0 {
+				l += strings.Repeat("y", pad+e.Choose("gen", 300))
+			}
 			if e.Choose("gen", 5) == 0 {
 				l += strings.Repeat("x", e.Choose("gen", 40))
 			}
